@@ -248,8 +248,32 @@ def emission(ctx) -> None:
     ctx.check('parents = {i for a in itertools.chain(self._absolute.values(), self._prefixed.values()) for i in a}' in t2 and 'set(self._absolute).union(self._prefixed).difference(parents)' in t2, 'C01.emission', lv, 'leaves = instructions that are nobody\'s argument', lv.node, key='leaves')
 
 
+def table_owners(ctx) -> None:
+    """Who may write the compile tables: the linkage lists are written only by insert/prepend (position given by the
+    port / by the state-prefix protocol checked above) and the instruction index only by set/reset - any other writer
+    (a re-keying or re-ordering helper) bypasses the argument-order and late-binding rules decided on those functions."""
+    prog = ctx.prog
+    link, index = f'{COMPILER}:Table.Linkage', f'{COMPILER}:Table.Index'
+    table = {
+        '_absolute': {f'{link}.__init__', f'{link}.insert'},
+        '_prefixed': {f'{link}.__init__', f'{link}.prepend'},
+        '_instructions': {f'{index}.__init__', f'{index}.set', f'{index}.reset'},
+    }
+    n = shared.r_writers(ctx, list(prog.functions([m for m in prog.modules if m.startswith('forml.flow._code')])), table, 'C01.owner', 'compile table ')
+    ctx.floor('C01.owner', n, 8)
+    # and the compiler drives them only through that interface
+    add = prog.func(f'{COMPILER}:Table.add')
+    for c in core.calls_in(add.node):
+        ch = core.dotted(c.func) or ''
+        if ch.startswith('self._linkage.'):
+            ctx.check(ch.split('.')[2] in ('insert', 'update', 'prepend'), 'C01.owner', add, 'Table.add links through insert/update/prepend only', c)
+        elif ch.startswith('self._index.'):
+            ctx.check(ch.split('.')[2] in ('set', 'reset'), 'C01.owner', add, 'Table.add registers through set/reset only', c)
+
+
 def run(ctx) -> None:
     emission(ctx)
+    table_owners(ctx)
     port_order(ctx)
     getter_index(ctx)
     state_prefix(ctx)
